@@ -1360,6 +1360,11 @@ class Process(StateMachine, persistence.Savable, metaclass=ProcessStateMachineMe
                 next_state = self.create_state(process_states.ProcessState.EXCEPTED, *sys.exc_info()[1:])
                 self._set_interrupt_action(None)
 
+            if next_state is not None and next_state.LABEL == process_states.ProcessState.EXCEPTED:
+                # The step failed (``Running.execute`` reports this by returning the excepted state): as above, go to
+                # excepted directly, a pending pause or kill must not swallow the failure.
+                self._set_interrupt_action(None)
+
             if self.has_terminated():
                 # The process was failed from outside (``fail`` or a failing scheduled callback) while the step was
                 # in flight. A terminal state is final, so the outcome of the step is discarded.
